@@ -25,6 +25,7 @@ type vfRM struct {
 	xid  uint32
 	frag int // when > 0, calls are sent as records cut into fragments of this many bytes
 	none bool // send AUTH_NONE credentials (what a standard client does for NULL) instead of AUTH_SYS root
+	cred *xdrw.Cred // when set (and none is false), the AUTH_SYS credential to send instead of root's
 }
 
 func vfDialRM(port int) (*vfRM, error) {
@@ -41,6 +42,9 @@ func (r *vfRM) call(prog, proc uint32, args []byte) (raw []byte, closed bool, er
 	r.xid++
 	r.c.SetDeadline(time.Now().Add(30 * time.Second))
 	cred := vfRootCred()
+	if r.cred != nil {
+		cred = *r.cred
+	}
 	if r.none {
 		cred = xdrw.Cred{}
 	}
